@@ -390,6 +390,14 @@ func runCase(c *core.Ctx, r *core.Result, stream string, i int, rng *rand.Rand, 
 	if cs.ROL {
 		st["ResetOnLogon"] = "Y"
 	}
+	if cs.Dict && i%2 == 0 {
+		// the validator options spelled out with their default values: each must end up in its own setting
+		st["ValidateUserDefinedFields"] = "Y"
+		st["AllowUnknownMsgFields"] = "N"
+		st["RejectInvalidMessage"] = "Y"
+		st["ValidateFieldsOutOfOrder"] = "Y"
+		st["ValidateFieldsHaveValues"] = "Y"
+	}
 	if cs.Dict {
 		for k, v := range lab.DictSettings(cs.Begin) {
 			st[k] = v
